@@ -47,6 +47,8 @@ RULE = (
     'a later deadline (or with an empty queue), or a raising task had '
     'successors, or a clear/stop cancelled pending tasks. Distinct by sha1 '
     'of case (scripts + tape).')
+RULE += ' ' + (
+    'The main thread changes the tempo of the clock it alone changes through the tempo setter or etempo().')
 ASSUMPTIONS = [
     'Upper bound on lateness = the largest latency the tape can inject '
     '(1/64 s) per wake-up; executing a task takes no virtual time.',
